@@ -1,6 +1,8 @@
 import argparse, importlib, os, sys
 sys.path.insert(0, os.path.dirname(os.path.abspath(__file__)))
 sys.path.insert(0, os.path.join(os.path.dirname(os.path.dirname(os.path.abspath(__file__))), "props"))
+if os.environ.get("VERIF_REPO"):
+    sys.path.insert(0, os.path.join(os.environ["VERIF_REPO"], "src"))
 import vf
 
 def main():
